@@ -38,10 +38,19 @@ type HarnessSpec struct {
 	MapPerms  bool           `json:"map_perms"`
 	SkipInit  []string       `json:"skip_init"`
 	Note      string         `json:"note"`
+	// UF lists functions (by go/ssa full name) replaced by uninterpreted functions of their scalar/big.Int arguments.
+	UF        []string       `json:"uf"`
+	ufSet     map[string]bool
 	mapPerm   func(p *Path, es []*MapEntry) []*MapEntry
 }
 
 func (h *HarnessSpec) Defaults() {
+	if len(h.UF) > 0 {
+		h.ufSet = map[string]bool{}
+		for _, n := range h.UF {
+			h.ufSet[n] = true
+		}
+	}
 	if h.MaxDepth == 0 {
 		h.MaxDepth = 400
 	}
@@ -87,6 +96,9 @@ type Engine struct {
 func NewEngine(prog *ssa.Program, fset *token.FileSet) *Engine {
 	e := &Engine{Prog: prog, Fset: fset, intr: map[string]Intrinsic{}, skipPkgs: map[string]bool{}}
 	registerIntrinsics(e)
+	registerBigIntrinsics(e)
+	registerU256Intrinsics(e)
+	registerMoreHarnessAPI(e)
 	return e
 }
 
